@@ -192,7 +192,8 @@ type eval struct {
 	ifaceDirect bool // ... and is the very value the interface holds (through pointers)
 	onIface     bool // the tag sits on a field of type interface{}
 
-	cat string // Validate(): the catalogue kind of the value
+	cat       string // Validate(): the catalogue kind of the value
+	emptyColl string // Validate(): "nil" / "allocated empty" if the value is a slice or map without elements
 
 	below bool // not a validator but a place: an error naming a path below it is about it as well (see runCall)
 }
@@ -432,6 +433,12 @@ func (w *walker) walk(td *gen.TD, v reflect.Value, p pos) {
 	if isCat && info.valid != nil {
 		w.add(p, "Validate()", info.valid(v), false)
 		w.evals[len(w.evals)-1].cat = catBase(td.Kind)
+		if k := v.Kind(); (k == reflect.Slice || k == reflect.Map) && v.Len() == 0 {
+			w.evals[len(w.evals)-1].emptyColl = "allocated empty"
+			if v.IsNil() {
+				w.evals[len(w.evals)-1].emptyColl = "nil"
+			}
+		}
 	}
 }
 
